@@ -123,6 +123,10 @@ func (diff *FileDiff) Initialize(repository *git.Repository) error {
 func stripWhitespace(str string, ignoreWhitespace bool) string {
 	if ignoreWhitespace {
 		response := strings.Replace(str, " ", "", -1)
+		// the last line must remain a line when it consists of spaces only
+		if n := len(str); n > 0 && str[n-1] == ' ' && (len(response) == 0 || response[len(response)-1] == '\n') {
+			response += " "
+		}
 		return response
 	}
 	return str
